@@ -76,6 +76,24 @@ def place_demos(d):
 
 
 def run_demos(d, demos):
+    pkgs = [x for x in os.listdir(d) if os.path.isdir(os.path.join(d, x)) and os.path.exists(os.path.join(d, x, "Cargo.toml"))]
+    if pkgs:
+        # a stand-alone demo package meant to be copied into the checkout root
+        ok_all, log = True, ""
+        for pk in pkgs:
+            dst = os.path.join(WT, pk)
+            shutil.rmtree(dst, ignore_errors=True)
+            shutil.copytree(os.path.join(d, pk), dst, ignore=shutil.ignore_patterns("target"))
+            k = os.path.basename(d)
+            tests = [f[:-3] for f in os.listdir(os.path.join(dst, "tests"))] if os.path.isdir(os.path.join(dst, "tests")) else []
+            sel = [t for t in tests if t.endswith(k)] or tests
+            for t in sel:
+                rc, out = sh(f"CARGO_TARGET_DIR=/tmp/mut/demo-pkg-target cargo test --offline --manifest-path {pk}/Cargo.toml --test {t} 2>&1 | tail -25", cwd=WT)
+                results = re.findall(r"test result: (\w+)\.", out)
+                ok = bool(results) and all(r == "ok" for r in results)
+                ok_all &= ok
+                log += out[-600:]
+        return ok_all, log
     if os.path.exists(os.path.join(d, "run_demo.sh")):
         env_dir = "/tmp/mut/c02demo"
         rc, out = sh(f"C02_DEMO_DIR={env_dir} CARGO_TARGET_DIR=/tmp/mut/c02demo-target sh {d}/run_demo.sh {WT} 2>&1 | tail -30")
